@@ -42,6 +42,7 @@ type Report struct {
 	bySolver       map[string]int
 	maxSecs        float64
 	allObls        []map[string]interface{}
+	replayDir      string
 }
 
 func (r *Report) samplesAdd(o *Obligation) {
@@ -99,6 +100,9 @@ func (r *Report) finish(evidencePath string) int {
 	nviol := 0
 	var lines []string
 	replayDir := filepath.Join(root, "replays", r.Prop)
+	if r.replayDir != "" {
+		replayDir = r.replayDir
+	}
 	os.RemoveAll(replayDir)
 	// problems are undischarged obligations without a model
 	if len(r.problems) > 0 {
